@@ -57,3 +57,9 @@ Print Assumptions C06_sinusoid_calibration_bound.
 Print Assumptions C06_power_spectrum.
 Print Assumptions C06_channel_scaling.
 Print Assumptions C06_kernel_homogeneity_poly.
+Print Assumptions C06_ENBW.
+Print Assumptions C06_density_normalisation.
+Print Assumptions C06_fs_relabelling.
+Print Assumptions C06_kernel_homogeneity_win.
+Print Assumptions C06_kernel_homogeneity_detrend0.
+Print Assumptions C06_sinusoid_response.
